@@ -238,6 +238,27 @@ func runDerive(d *big.Int) string {
 func runDerivePub(q ref.Pt, z *big.Int) string {
 	p := lib.MkPTRep(q, z)
 	raw := lib.Raw(p)
+	// object history: the caller's point has since been the receiver of decodes that FAILED (documented to leave the
+	// receiver unchanged): well-formed but off-curve encodings in both formats, a non-canonical coordinate, a wrong length
+	{
+		g := ref.G()
+		off := append([]byte{4}, append(ref.B32(g.X), ref.B32(new(big.Int).Add(g.Y, big.NewInt(1)))...)...)
+		x := big.NewInt(1)
+		for {
+			if _, ok := ref.LiftX(x, 0); !ok {
+				break
+			}
+			x.Add(x, big.NewInt(1))
+		}
+		for _, b := range [][]byte{off, append([]byte{2}, ref.B32(x)...), append([]byte{3}, ref.B32(ref.P)...), off[:40]} {
+			if r, e := p.SetBytes(b); e == nil || r != nil {
+				return "an invalid encoding was decoded"
+			}
+		}
+		if lib.Raw(p) != raw {
+			return "a failed decode modified its receiver (the point is about to be turned into a Schnorr public key)"
+		}
+	}
 	k, err := bitcoin.NewSchnorrPublicKeyFromPoint(p)
 	if q.Inf {
 		if err == nil || k != nil {
